@@ -48,9 +48,9 @@ def showAttrs (a : Attrs ExtRat) : Json :=
 def parseEntry (j : Json) : Except String (Entry ExtRat) := do
   let neg ← getBool j "neg"
   let om ← getBool j "oldMulti"
-  let oc ← getBool j "oldCanon"
+  let oc ← getBool j "inCanon"
   let a ← parseAttrs (← getObj j "attrs")
-  pure { neg := neg, oldMulti := om, oldCanon := oc, attrs := a }
+  pure { neg := neg, oldMulti := om, inCanon := oc, attrs := a }
 
 def handle (req : Json) : Except String Json := do
   let op ← getStr req "op"
